@@ -304,7 +304,7 @@ impl Prop for C20 {
         vec![Leg {
             name: "random",
             kind: LegKind::Random {
-                cases: tier.pick(2500, 25_000),
+                cases: tier.pick(40000, 300000),
             },
             workers: 16,
             build: Build::Normal,
